@@ -2520,6 +2520,9 @@ impl Server {
                             if let RespFrame::BulkString(Some(seconds_bytes)) = &parts[i + 1] {
                                 if let Ok(seconds_str) = String::from_utf8(seconds_bytes.as_ref().clone()) {
                                     if let Ok(seconds) = seconds_str.parse::<u64>() {
+                                        if seconds == 0 {
+                                            return Ok(RespFrame::error("ERR invalid expire time in 'set' command"));
+                                        }
                                         expiration = Some(Duration::from_secs(seconds));
                                         i += 2;
                                         continue;
@@ -2535,6 +2538,9 @@ impl Server {
                             if let RespFrame::BulkString(Some(millis_bytes)) = &parts[i + 1] {
                                 if let Ok(millis_str) = String::from_utf8(millis_bytes.as_ref().clone()) {
                                     if let Ok(millis) = millis_str.parse::<u64>() {
+                                        if millis == 0 {
+                                            return Ok(RespFrame::error("ERR invalid expire time in 'set' command"));
+                                        }
                                         expiration = Some(Duration::from_millis(millis));
                                         i += 2;
                                         continue;
@@ -2556,6 +2562,11 @@ impl Server {
                 }
                 _ => return Ok(RespFrame::error("ERR syntax error")),
             }
+        }
+        
+        // NX and XX exclude each other
+        if nx && xx {
+            return Ok(RespFrame::error("ERR syntax error"));
         }
         
         // Handle NX option (only set if key doesn't exist) - use atomic operation
@@ -2929,6 +2940,10 @@ impl Server {
             _ => return Ok(RespFrame::error("ERR invalid value format")),
         };
         
+        if seconds == 0 {
+            return Ok(RespFrame::error("ERR invalid expire time in 'setex' command"));
+        }
+        
         self.storage.set_string_ex(db, key, value, std::time::Duration::from_secs(seconds))?;
         Ok(RespFrame::ok())
     }
@@ -2958,6 +2973,10 @@ impl Server {
             RespFrame::BulkString(Some(bytes)) => bytes.as_ref().clone(),
             _ => return Ok(RespFrame::error("ERR invalid value format")),
         };
+        
+        if millis == 0 {
+            return Ok(RespFrame::error("ERR invalid expire time in 'psetex' command"));
+        }
         
         self.storage.set_string_ex(db, key, value, std::time::Duration::from_millis(millis))?;
         Ok(RespFrame::ok())
